@@ -1225,8 +1225,14 @@ func (db *DB) allocate(txid common.Txid, count int) (*common.Page, error) {
 			// while it is harmless on other platforms.
 			nextAllocSize = nextMmapSize
 		} else {
-			// On non-Windows platforms, the database file is only grown explicitly in grow calls.
-			nextAllocSize = db.growSize(nextMmapSize, nextAllocSize)
+			// On non-Windows platforms, the database file is only grown explicitly in grow calls,
+			// which size the file by the map size in effect at that time: the current
+			// one unless this allocation remaps.
+			mapSize := db.datasz
+			if minsz >= db.datasz {
+				mapSize = nextMmapSize
+			}
+			nextAllocSize = db.growSize(mapSize, nextAllocSize)
 		}
 		if nextAllocSize > db.MaxSize {
 			db.Logger().Errorf("[GOOS: %s, GOARCH: %s] maximum db size reached, minSize: %d (allocSize: %d), db.MaxSize: %d", runtime.GOOS, runtime.GOARCH, minsz, nextAllocSize, db.MaxSize)
